@@ -15,11 +15,29 @@ CHECKS = {
         "their raw-array constructors; trusted: TLC, spec/Storage.tla abstraction functions, harness/c01_matvec.cpp",
    technique="TLA+ spec + TLC exhaustive generation of post-states replayed into the implementation (model-based testing)",
    engine="lafem"),
+ "C17": dict(
+   category="model_checking", design_ref="DESIGN.md 6/C17",
+   text="(M) spec/ThreadAsm.tla - master/worker fence protocol of DomainAssembler (layered, colored, no-scatter, master-run and failure paths, "
+        "repeated jobs) - is model checked by TLC over all interleavings for 2-4 workers: NoAdjacentScatter, CombineExclusive, EachCellOnce, "
+        "deadlock freedom and termination under weak fairness; spec/WorkDist.tla (transcription of _build_thread_layers) is checked against its "
+        "contract for every layer-size vector. (G) the real _build_thread_layers is driven with every enumerated layer structure and compared "
+        "with the transcription. (V) ~500 (quick) runs of the real threads over the TLC-enumerated configuration space (mesh x cell subset x "
+        "strategy x requested workers 0..cells+2 x scatter/combine x repeated jobs x injected task failure), under seeded schedule perturbation, "
+        "are logged through the FEAT3_VERIF_HOOKS fence/worker hooks and validated event by event by TLC against Trace_ThreadAsm.tla with the "
+        "real mesh adjacency; results are compared with the serial ones; abort/hang/exception outcomes are violations.",
+   note="all interleavings only in the model (small instances); real schedules are sampled. Event stamps come from one atomic counter, fence "
+        "events are stamped while the fence mutex is held. Physical data races additionally observed by ThreadSanitizer in the thorough tier. "
+        "Trusted: TLC, the hooks (add-only), harness/c17_threads.cpp",
+   technique="TLA+ protocol model checked by TLC + trace validation of recorded thread executions against the spec",
+   engine="threads"),
 }
 
 ENGINES = [
  {"name": "lafem", "path": "spec/MatVec.tla spec/Storage.tla spec/IntLinAlg.tla harness/c01_matvec.cpp checks/C01.py",
   "serves_properties": ["C01"], "kind_free_text": "TLA+ module + TLC generator + C++ replayer"},
+ {"name": "threads", "path": "spec/ThreadAsm.tla spec/Trace_ThreadAsm.tla spec/WorkDist.tla spec/MC_ThreadAsm.tla spec/MC_WorkDist.tla "
+                             "spec/ThreadCfg.tla harness/c17_threads.cpp lib/c17_mc.py checks/C17.py",
+  "serves_properties": ["C17"], "kind_free_text": "TLA+ protocol model (TLC model checking) + trace validation of hook-recorded executions"},
 ]
 
 PENDING_REASON = "check not built yet (work in progress, see DESIGN.md section 11)"
